@@ -2,6 +2,7 @@ import Lean.Data.Json
 import GristModel
 import Driver.Treeview
 import Driver.Engine
+import Driver.SchemaGen
 import Driver.CsvPost
 import Driver.Relabel
 import Driver.Textbuilder
@@ -26,6 +27,7 @@ def handleStateless (m : String) (j : Json) : Except String Json :=
   | "textbuilder" => handleTextbuilder j
   | "relabel" => Relabel.handleRelabel j
   | "csvpost" => handleCsvPost j
+  | "schemagen" => handleSchemaGen j
   | _ => throw s!"unknown model {m}"
 
 structure AllState where
